@@ -66,6 +66,20 @@ def respond (line : String) : String :=
         | .ok lots => lots.any (fun x => decide (x.adjCost < 0))
         | .error _ => false)
       if hit then "yes" else "no"
+  | "fx" :: cache :: txs =>
+    match parseCache? cache, parseAll parseCTx? (txs.filter (· ≠ "")) with
+    | some c, some l =>
+      match toGbpAll c l with
+      | .error e => s!"err missingFxRate {e.cur} {e.y} {e.m}"
+      | .ok out => "ok" ++ String.join (out.map (fun t => " T " ++ showOpWire t))
+    | _, _ => "bad-request"
+  | "fxload" :: bundled :: queries :: files =>
+    match parseCache? bundled, parseAll parseKey? (queries.splitOn ";"), parseAll parseRateFile? (files.filter (· ≠ "")) with
+    | some b, some qs, some fs =>
+      match loadCache b fs with
+      | .error e => s!"err {showLoadErr e}"
+      | .ok c => "ok" ++ String.join (qs.map (fun k => match c.get k with | some r => " " ++ showRat r | none => " -"))
+    | _, _, _ => "bad-request"
   | "spec" :: txs =>
     match parseAll parseTx? (txs.filter (· ≠ "")) with
     | none => "bad-request"
